@@ -1267,6 +1267,73 @@ def probe_sym2psd(ctx, rng):
                         ctx.probe_ok(('sym2psd', d, cplx, shp, backend))
 
 
+def probe_buffer_reuse(ctx):
+    """hardening class "buffer reuse across calls" (harness/mani_reuse.py): r1 = f(A); r2 = f(B), B != A of the same shape => r1 unchanged bit for bit, no
+    shared memory, r1 still on the manifold; then f(A) -> result overwritten in place -> f(B), f(A) unchanged.  Deterministic (own generator), quick tier.
+    Covered: every to_* map (numpy and torch, unbatched and batch (2,)), symmetric_matrix_to_trace1PSD, forward() of two modules of the same shape for
+    every class of numqi.manifold incl. QuantumChannel, SeparableDensityMatrix, ABkHermitian, ABk2localHermitian (interleaved calls)."""
+    import torch
+    from . import mani_reuse as MR
+    rng = np.random.default_rng(20260930)
+    Mm = M()
+    specs = [Softplus(n=3), ExpMap(n=3), Interval(n=3, lower=-0.5, upper=2.0), Ball(n=3, rc='r'), Ball(n=4, rc='c'), SphereQ(n=3, rc='r'), SphereQ(n=4, rc='c'),
+             SphereC(n=2, rc='r'), SphereC(n=3, rc='c'), Softmax(n=3, rc='r'), ProbSphere(n=3, rc='r')]
+    for rc in 'rc':
+        specs += [PsdChol(dim=3, rank=2, rc=rc), PsdEns(dim=3, rank=2, rc=rc), StPolar(dim=3, rank=2, rc=rc), StQR(dim=3, rank=2, rc=rc),
+                  StCholL(dim=3, rank=2, rc=rc), StEuler(dim=3, rank=2, rc=rc, phase=False), SymMat(dim=3, rc=rc, t0=False, n1=False),
+                  SymMat(dim=3, rc=rc, t0=True, n1=True), SoExp(dim=3, rc=rc), SoCayley(dim=3, rc=rc, order=2), StSO(dim=3, rank=2, rc=rc, meth='exp')]
+    specs.append(StEuler(dim=3, rank=2, rc='c', phase=True))
+    for spec in specs:
+        n = spec.nparam()
+        for shp in ((), (2,)):
+            A = rng.normal(size=shp + (n,)); B = rng.normal(size=shp + (n,))
+            for backend in ('np', 'torch'):
+                def valid(r, spec=spec, A=A):
+                    y = to_np(r).reshape((-1,) + spec.out_shape())
+                    for row, yy in zip(A.reshape(-1, spec.nparam()), y):
+                        for key, ok, what in spec.checks(row, yy.astype(np.complex128 if np.iscomplexobj(yy) else np.float64), PROBE64):
+                            if not ok:
+                                return f'{key}: {what}'
+                    return None
+                MR.check(ctx, f'{spec.name}[{spec.key()},{backend},batch{list(shp)}]',
+                         lambda spec=spec, A=A, backend=backend: spec.call(to_backend(A, backend, False)),
+                         lambda spec=spec, B=B, backend=backend: spec.call(to_backend(B, backend, False)), valid,
+                         history=[dict(map=spec.name, options=dict(spec.__dict__), backend=backend, theta=A.reshape(-1).tolist()),
+                                  dict(map=spec.name, options=dict(spec.__dict__), backend=backend, theta=B.reshape(-1).tolist())])
+    for d in (1, 3, 5):       # d >= 6 goes through scipy's eigsh with a random start vector: not bit-repeatable, hence not usable for a bitwise history
+        for backend in ('np', 'torch'):
+            H = [(lambda a: (a + a.conj().T) / 2)(rng.normal(size=(d, d)) + 1j * rng.normal(size=(d, d))) for _ in range(2)]
+            conv = (lambda a: torch.tensor(a)) if backend == 'torch' else (lambda a: a.copy())
+            MR.check(ctx, f'symmetric_matrix_to_trace1PSD[d={d},{backend}]', lambda: Mm.symmetric_matrix_to_trace1PSD(conv(H[0])),
+                     lambda: Mm.symmetric_matrix_to_trace1PSD(conv(H[1])), history=[dict(matA=[str(z) for z in h.reshape(-1)]) for h in H])
+    # forward() of two modules of the same shape, interleaved
+    import numqi
+    mods = [('PositiveReal(3)', lambda: Mm.PositiveReal(3)), ('OpenInterval(-1,2,3)', lambda: Mm.OpenInterval(-1.0, 2.0, 3)),
+            ('DiscreteProbability(4,softmax)', lambda: Mm.DiscreteProbability(4)), ('DiscreteProbability(4,sphere)', lambda: Mm.DiscreteProbability(4, method='sphere')),
+            ('Ball(3)', lambda: Mm.Ball(3)), ('Ball(3,complex)', lambda: Mm.Ball(3, dtype=torch.complex128)),
+            ('Sphere(3,quotient)', lambda: Mm.Sphere(3)), ('Sphere(3,coordinate,complex,bs2)', lambda: Mm.Sphere(3, 2, 'coordinate', dtype=torch.complex128)),
+            ('Trace1PSD(3,2,cholesky)', lambda: Mm.Trace1PSD(3, 2)), ('Trace1PSD(3,2,ensemble,complex)', lambda: Mm.Trace1PSD(3, 2, method='ensemble', dtype=torch.complex128)),
+            ('SymmetricMatrix(3)', lambda: Mm.SymmetricMatrix(3)), ('SymmetricMatrix(3,trace0,norm1,complex)', lambda: Mm.SymmetricMatrix(3, None, True, True, dtype=torch.complex128)),
+            ('SpecialOrthogonal(3,exp)', lambda: Mm.SpecialOrthogonal(3)), ('SpecialOrthogonal(3,cayley,complex)', lambda: Mm.SpecialOrthogonal(3, None, 'cayley', dtype=torch.complex128))]
+    for meth in ('choleskyL', 'qr', 'polar', 'so-exp', 'so-cayley', 'euler'):
+        mods.append((f'Stiefel(3,2,{meth})', lambda meth=meth: Mm.Stiefel(3, 2, None, meth)))
+        mods.append((f'Stiefel(3,2,{meth},complex,bs2)', lambda meth=meth: Mm.Stiefel(3, 2, 2, meth, dtype=torch.complex128)))
+    mods += [('QuantumChannel(2,2,kraus)', lambda: Mm.QuantumChannel(2, 2)), ('QuantumChannel(2,3,2,choi)', lambda: Mm.QuantumChannel(2, 3, 2, return_kind='choi')),
+             ('SeparableDensityMatrix(2,2,3)', lambda: Mm.SeparableDensityMatrix(2, 2, 3)), ('ABkHermitian(2,2,2)', lambda: Mm.ABkHermitian(2, 2, 2)),
+             ('ABk2localHermitian(2,2,2)', lambda: Mm.ABk2localHermitian(2, 2, 2)), ('ABk2localHermitian(1,2,3)', lambda: Mm.ABk2localHermitian(1, 2, 3)),
+             ('quantum_state(3)', lambda: Mm.quantum_state(3)), ('density_matrix(3)', lambda: Mm.density_matrix(3)), ('quantum_gate(3)', lambda: Mm.quantum_gate(3))]
+    for name, mk in mods:
+        torch.manual_seed(int(rng.integers(1 << 30)))
+        m1, m2 = guarded(mk), guarded(mk)
+        if isinstance(m1, str) or isinstance(m2, str):
+            ctx.fail('module:constructor', f'{name} raised {m1 if isinstance(m1, str) else m2}', dict(module=name)); continue
+        def fw(m):
+            with torch.no_grad():
+                return m()
+        pars = lambda m: [[float(x) for x in p.detach().reshape(-1)] for p in m.parameters()]
+        MR.check(ctx, f'{name}.forward', lambda m1=m1: fw(m1), lambda m2=m2: fw(m2), history=[dict(module=name, parameters=pars(m1)), dict(module=name, parameters=pars(m2))])
+
+
 def probe_dtype_readonly(ctx, rng):
     """integer-dtype and read-only parameter vectors: wherever the clean tree accepts them the result must be the map of the same values in
     float64 (no silent truncation / no write into the caller's array); a rejection (exception) of an integer dtype is counted, not failed"""
@@ -1461,6 +1528,7 @@ def probe(ctx):
     probe_weighted(ctx, rng)
     abk_probe(ctx, rng)
     probe_sym2psd(ctx, rng)
+    probe_buffer_reuse(ctx)
     ctx.extra['statements_not_proved'] = []
     ctx.extra['probe_tolerance'] = f'constraints: {PROBE64} (float64), {PROBE32} (float32); exp/cayley unitarity scaled by max(1,|theta|_max*dim/10)*order'
     # documented batch shapes of to_stiefel_euler ("the rest dimensions will be batch dimensions"; quantifier of the property: (k,l) for every map);
